@@ -74,6 +74,41 @@ class PROP(Prop):
                         adm = nl <= 16 or mode == "bytes"
                         cs.append(Case(cligen.cli_line("rtu", slave, [cligen.call_op(creq, R=mb.rscript(parts))]),
                                        {"k": "cli_noise", "adm": adm, "want": "OK:" + mb.show_rsp(mb.pad_rsp(rsp)), "nparts": len(parts), "nl": nl}))
+        # exhaustive probe of both length tables.  For every pair (n, b) of noise values: ONE noise byte n before a valid frame
+        # whose slave id is b, with the frame's own fields chosen so that "n b <first L-1 PDU bytes>" is followed by the
+        # CRC-16 of that window.  Any table row that treats b as a function code of PDU length L (L = 2: an exception-like
+        # row; L = 5: an ordinary read/write row) makes that window a CRC-valid frame and the real frame is lost; with the
+        # tables as specified b is not a function code, n is dropped and the real frame must be delivered.
+        def crcb(x):
+            c = mb.crc16(x)
+            return c & 0xFF, c >> 8
+        pairs = [(n, b) for n in rtugen.NOISE for b in rtugen.NOISE]
+        if tier == "quick":
+            pairs = [(rng.choice(rtugen.NOISE), b) for b in rtugen.NOISE] + rng.sample(pairs, 60)
+        for (n, b) in pairs:
+            # L = 2, both directions: write-single-register, address := crc(n b 06)
+            lo, hi = crcb(bytes([n, b, 6]))
+            val = rng.randrange(65536)
+            req = ("WSR", lo << 8 | hi, val)
+            fr = mb.rtu_frame(b, mb.spec_req_pdu(req))
+            cs.append(Case("SRV rtu %s - - -" % mb.rscript([bytes([n]) + fr]), {"k": "probe_srv", "exp": ["C:%d:%s" % (b, mb.show_req(req)), "WAIT"], "nparts": 1, "nl": 1}))
+            rsp = ("WSR", lo << 8 | hi, val)
+            cs.append(Case(cligen.cli_line("rtu", b, [cligen.call_op(req, R=mb.rscript([bytes([n]) + mb.rtu_frame(b, mb.spec_rsp_pdu(rsp))]))]),
+                           {"k": "probe_cli", "want": "OK:" + mb.show_rsp(rsp), "nparts": 1, "nl": 1}))
+            # L = 5, response: read-holding-registers with 2 words, second word := crc(n b 03 04 d0 d1)
+            d0, d1 = rng.randrange(256), rng.randrange(256)
+            lo, hi = crcb(bytes([n, b, 3, 4, d0, d1]))
+            rsp = ("RHR", [d0 << 8 | d1, lo << 8 | hi])
+            cs.append(Case(cligen.cli_line("rtu", b, [cligen.call_op(("RHR", 9, 2), R=mb.rscript([bytes([n]) + mb.rtu_frame(b, mb.spec_rsp_pdu(rsp))]))]),
+                           {"k": "probe_cli", "want": "OK:" + mb.show_rsp(rsp), "nparts": 1, "nl": 1}))
+            # L = 5, request: read/write-multiple, read address searched so that crc(n b 17 rah ral 00) = (read qty, write addr hi)
+            for ra in range(65536):
+                lo, hi = crcb(bytes([n, b, 0x17, ra >> 8, ra & 0xFF, 0]))
+                if 1 <= lo <= 125:
+                    req = ("RWMR", ra, lo, hi << 8 | rng.randrange(256), [rng.randrange(65536)])
+                    fr = mb.rtu_frame(b, mb.spec_req_pdu(req))
+                    cs.append(Case("SRV rtu %s - - -" % mb.rscript([bytes([n]) + fr]), {"k": "probe_srv", "exp": ["C:%d:%s" % (b, mb.show_req(req)), "WAIT"], "nparts": 1, "nl": 1}))
+                    break
         # long byte-wise noise
         for nl in (50, 100, 300):
             noise = bytes(rng.choice(rtugen.NOISE) for _ in range(nl))
@@ -99,6 +134,12 @@ class PROP(Prop):
                 return None
             tr = r.split(",")
             return None if tr == m["exp"] else "frame after %d noise bytes: delivered %s, want %s" % (m["nl"], r[:70], ",".join(m["exp"])[:70])
+        if k == "probe_srv":
+            tr = r.split(",")
+            return None if tr == m["exp"] else "a noise-valued byte was taken for a function code by the request table: delivered %s, want %s" % (r[:70], ",".join(m["exp"])[:70])
+        if k == "probe_cli":
+            res, _ = cligen.res_and_w(r)
+            return None if res == m["want"] else "a noise-valued byte was taken for a function code by the response table: %s, want %s" % (res[:60], m["want"])
         if k == "cli_noise":
             if not m["adm"]:
                 return None
